@@ -116,10 +116,12 @@ func c16Main(rc *RunCtx) {
 func c16Client(rc *RunCtx) {
 	w := newW1(rc)
 	w.CheckFrames = true
+	rc.StrictBufs = true
 	kind := []TransportKind{TkTCP, TkReuse, TkTCPPipeline, TkPipelineStream}[simrt.Choose(4)]
 	rc.Cfg["kind"] = "framing/client " + kind.String()
 	pKill := []int{0, 30, 60}[simrt.Choose(3)]
 	idle := []time.Duration{0, 2 * time.Second}[simrt.Choose(2)]
+	pDup := []int{0, 20, 50}[simrt.Choose(3)]
 	pStall := 0
 	if kind.pipelined() && idle > 0 {
 		pStall = []int{0, 10, 30}[simrt.Choose(3)]
@@ -140,19 +142,42 @@ func c16Client(rc *RunCtx) {
 		if simrt.Choose(4) == 0 {
 			a.Delay = time.Duration(1+simrt.Choose(5)) * time.Millisecond
 		}
+		if kind.pipelined() && simrt.Choose(100) < pDup {
+			a.Dup = 1 + simrt.Choose(3) // duplicate frames back to back
+		}
 		return a
 	}
 	rc.Net.Handle("tcp", srvAddr, w.Serve(ServerOpts{Plan: plan}))
 	u := w.NewTransport(kind, TransportOpts{IdleTimeout: idle})
 	callers := 1 + simrt.Choose(4)
 	done := make(chan struct{}, callers)
+	huge := simrt.Choose(4) == 0
+	if huge {
+		w.MaxQueryFrame = 65535
+	}
 	for ci := 0; ci < callers; ci++ {
 		ci := ci
 		n := 1 + simrt.Choose(6)
 		simrt.GoNamed(fmt.Sprintf("caller%d", ci), func() {
 			for s := 0; s < n && rc.Viol == nil; s++ {
 				call := w.NewCall(ci, s, uint16(simrt.Choose(65536)), 1)
-				w.Exchange(u, call)
+				if huge && simrt.Choose(3) == 0 {
+					// queries at and beyond the 65535-byte limit of a length-prefixed
+					// frame (the question followed by padding): the largest must be
+					// framed intact, longer ones refused without writing anything
+					size := []int{65534, 65535, 65536, 65537, 70000}[simrt.Choose(5)]
+					call.Query = append(call.Query, make([]byte, size-len(call.Query))...)
+					simrt.Fault("query_at_frame_size_limit")
+					w.Exchange(u, call)
+					if size > 65535 {
+						if call.Err == nil || len(call.Txs) > 0 {
+							rc.Fail("oversize_message_not_refused", "a %d-byte query (limit 65535) returned err=%v and was seen %d times by the server", size, call.Err, len(call.Txs))
+						}
+						continue
+					}
+				} else {
+					w.Exchange(u, call)
+				}
 				w.CheckProvenance(call)
 				if simrt.Choose(3) == 0 {
 					simrt.Sleep(0, time.Duration(simrt.Choose(20))*time.Millisecond)
